@@ -95,6 +95,9 @@ class CachingMachine(Machine):
         func = random_spec(rng, dim, family)
         # swarm: the whole problem on a stretched coordinate axis (areas of 1e3 ... 1e10 units: wavelengths in pm, densities);
         # conditioning, curvature * h^2 and every relative tolerance are invariant under it, absolute constants in the code are not
+        yscale = rng.choice([1.0] * 9 + [1e-35, 1e-12, 1e25])
+        if yscale != 1.0:
+            func["yscale"] = yscale
         xscale = rng.choice([1.0] * 9 + [1e3, 1e6, 1e10])
         if xscale != 1.0:
             area = [[a[0] * xscale, a[1] * xscale] for a in area]
@@ -108,6 +111,8 @@ class CachingMachine(Machine):
         config = {"dim": dim, "area": area, "res": res, "nbe": rng.random() < 0.4, "fbmode": fbmode, "nested": nested,
                   "func": func, "faults": rng.random() < 0.45,
                   "fault_kind": rng.choice(["error", "interrupt"])}
+        if family == "multilinear" and not nested and all(not t["axes"] for t in func["terms"]) and rng.random() < 0.5:
+            config["as_number"] = True          # the constant is handed over as a plain Python float, not as a callable
         nodes = [node_layout(a[0], a[1], r) for a, r in zip(area, res)]
         nops = rng.randint(4, 60 if tier == "quick" else 80)
         order = rng.choice(["random", "random", "sorted", "reverse", "clustered", "repeat"])
@@ -201,6 +206,8 @@ class CachingMachine(Machine):
     def _inner(self, cfg, func):
         """The function handed to a cache: either the SimFunction itself or another cache around it on a different, wider grid
         with no_boundary_error (so it is defined wherever the outer cache samples)."""
+        if cfg.get("as_number"):
+            return float(func.value(*[0.0] * cfg["dim"]))
         if not cfg.get("nested"):
             return func
         dim = cfg["dim"]
@@ -230,7 +237,8 @@ class CachingMachine(Machine):
         if mode == "true":
             return (-b, b)
         if mode == "loose":
-            return (-1000.0 * b - 7.0, 1000.0 * b + 3.0)
+            ys = float(cfg["func"].get("yscale", 1.0))
+            return (-1000.0 * b - 7.0 * ys, 1000.0 * b + 3.0 * ys)
         return (0.25 * b, 0.25 * b)
 
     def _box(self, cfg):
@@ -238,7 +246,7 @@ class CachingMachine(Machine):
 
     def _bound(self, cfg):
         f = SimFunction(cfg["dim"], cfg["func"])
-        return max(1.0, f.abs_bound(self._box(cfg)))
+        return max(1.0 * f.ys, f.abs_bound(self._box(cfg)))
 
     def start(self, cfg, env):
         c = Ctx()
@@ -252,7 +260,7 @@ class CachingMachine(Machine):
         c.nb = None
         c.ref = SimFunction(c.dim, cfg["func"])       # the oracle function, never handed to a cache
         box = self._box(cfg)
-        c.scale = max(1.0, c.ref.abs_bound(box))
+        c.scale = max(1.0 * c.ref.ys, c.ref.abs_bound(box))
         fb = self._fb(cfg)
         c.range = max(c.scale, abs(fb[1] - fb[0]) if fb else 0.0)
         # comparisons with the wrapped function: power-basis model + a per-dimension floor for the rounding noise of the
